@@ -49,7 +49,8 @@ const K_CLONE: u16 = 64;
 const K_SAVE: u16 = 128;
 const K_RELOAD: u16 = 256;
 const K_RICH: u16 = 512;
-const KIND_NAMES: [(u16, &str); 10] = [
+const K_RELOAD_LAZY: u16 = 1024;
+const KIND_NAMES: [(u16, &str); 11] = [
     (K_SET, "set"),
     (K_OVERWRITE, "overwrite"),
     (K_DELCELL, "delete-cell"),
@@ -60,6 +61,7 @@ const KIND_NAMES: [(u16, &str); 10] = [
     (K_SAVE, "save"),
     (K_RELOAD, "reload"),
     (K_RICH, "rich-text"),
+    (K_RELOAD_LAZY, "reload-lazy"),
 ];
 
 // how a string left a handle's model
@@ -89,7 +91,8 @@ enum Op {
     RemSheet { h: u8 },
     CloneH { h: u8 },
     Save { h: u8, twice: bool },
-    Reload { h: u8 },
+    /// handle replaced by read_reader(own save); lazy = sheets stay raw until first touched
+    Reload { h: u8, lazy: bool },
 }
 impl Op {
     fn mutates_table(&self) -> bool {
@@ -104,7 +107,7 @@ impl Op {
             Op::RemSheet { h } => json!({"op":"remove_sheet","handle":h,"sheet":SHEET2}),
             Op::CloneH { h } => json!({"op":"clone","handle":h}),
             Op::Save { h, twice } => json!({"op": if twice {"save_twice"} else {"save"},"handle":h}),
-            Op::Reload { h } => json!({"op":"reload","handle":h}),
+            Op::Reload { h, lazy } => json!({"op": if lazy {"reload_lazy"} else {"reload"},"handle":h}),
         }
     }
 }
@@ -122,6 +125,9 @@ struct HM {
     lost: [u8; 5],
     /// markers this object itself has saved (labels only)
     self_saved: u8,
+    /// sheet (Sheet1, S2) is still raw after a lazy reload (not yet deserialized): its cells cannot be read
+    /// through the in-memory getters
+    raw: [bool; 2],
 }
 impl HM {
     fn mask(&self) -> u8 {
@@ -177,7 +183,7 @@ struct St {
 }
 impl St {
     fn root() -> St {
-        St { path: vec![], hs: vec![HM { s1: [None, None], s2: None, family: 0, lost: [0; 5], self_saved: 0 }], fam_saved: vec![0], fam_loaded: vec![0], ever: 0, kinds: 0 }
+        St { path: vec![], hs: vec![HM { s1: [None, None], s2: None, family: 0, lost: [0; 5], self_saved: 0, raw: [false, false] }], fam_saved: vec![0], fam_loaded: vec![0], ever: 0, kinds: 0 }
     }
     fn tags(&self) -> Vec<&'static str> {
         KIND_NAMES.iter().filter(|(b, _)| self.kinds & b != 0).map(|(_, n)| *n).collect()
@@ -193,6 +199,7 @@ fn model_step(s: &St, op: &Op) -> St {
             let before = hm.mask();
             let had = hm.s1[row as usize - 1].is_some();
             hm.s1[row as usize - 1] = Some(m);
+            hm.raw[0] = false;
             hm.note_change(before, O_OVERWRITTEN);
             n.ever |= 1 << m;
             n.kinds |= if had { K_OVERWRITE } else { K_SET };
@@ -204,6 +211,7 @@ fn model_step(s: &St, op: &Op) -> St {
             let hm = &mut n.hs[h as usize];
             let before = hm.mask();
             hm.s1[row as usize - 1] = None;
+            hm.raw[0] = false;
             hm.note_change(before, O_DELCELL);
             n.kinds |= K_DELCELL;
         }
@@ -214,6 +222,7 @@ fn model_step(s: &St, op: &Op) -> St {
                 hm.s1[0] = hm.s1[1];
             }
             hm.s1[1] = None;
+            hm.raw[0] = false;
             hm.note_change(before, O_REMROW);
             n.kinds |= K_REMROW;
         }
@@ -221,6 +230,7 @@ fn model_step(s: &St, op: &Op) -> St {
             let hm = &mut n.hs[h as usize];
             let before = hm.mask();
             hm.s2 = Some(m);
+            hm.raw[1] = false;
             hm.note_change(before, O_NONE);
             n.ever |= 1 << m;
             n.kinds |= K_ADDSHEET;
@@ -232,6 +242,7 @@ fn model_step(s: &St, op: &Op) -> St {
             let hm = &mut n.hs[h as usize];
             let before = hm.mask();
             hm.s2 = None;
+            hm.raw[1] = false;
             hm.note_change(before, O_REMSHEET);
             n.kinds |= K_REMSHEET;
         }
@@ -252,8 +263,9 @@ fn model_step(s: &St, op: &Op) -> St {
             n.fam_saved[n.hs[h as usize].family as usize] |= m;
             n.kinds |= K_SAVE;
         }
-        Op::Reload { h } => {
+        Op::Reload { h, lazy } => {
             let m = n.hs[h as usize].mask();
+            n.hs[h as usize].raw = [lazy, lazy && n.hs[h as usize].s2.is_some()];
             let f = n.hs[h as usize].family as usize;
             n.fam_saved[f] |= m;
             let maybe_in_file = n.fam_saved[f] | n.fam_loaded[f];
@@ -261,7 +273,7 @@ fn model_step(s: &St, op: &Op) -> St {
             n.fam_loaded.push(maybe_in_file);
             n.hs[h as usize].family = (n.fam_saved.len() - 1) as u8;
             n.hs[h as usize].self_saved = 0;
-            n.kinds |= K_RELOAD;
+            n.kinds |= if lazy { K_RELOAD_LAZY } else { K_RELOAD };
         }
     }
     n
@@ -327,7 +339,10 @@ fn enabled_ops(a: &Alpha, s: &St) -> Vec<Op> {
         v.push(Op::Save { h, twice: false });
     }
     for h in 0..nh {
-        v.push(Op::Reload { h });
+        v.push(Op::Reload { h, lazy: false });
+    }
+    for h in 0..nh {
+        v.push(Op::Reload { h, lazy: true });
     }
     v
 }
@@ -442,7 +457,11 @@ fn provenance(s: &St, h: usize, x: &str) -> String {
         "never-set-anywhere"
     };
     let f = hm.family as usize;
-    let via = if hm.self_saved & bit != 0 {
+    let via = if (hm.raw[0] || hm.raw[1]) && s.fam_loaded[f] & bit != 0 {
+        // the handle still has an unloaded (raw) sheet: its bytes are written back verbatim and index the
+        // table that was loaded with it, so no loaded entry can be dropped while such a sheet exists
+        "pinned-by-unloaded-sheet"
+    } else if hm.self_saved & bit != 0 {
         "registered-by-earlier-save-of-same-handle"
     } else if s.fam_saved[f] & bit != 0 {
         "registered-by-earlier-save-of-clone-relative"
@@ -625,9 +644,9 @@ impl C12Machine {
                             dump::save_bytes(&r.hs[h as usize], second_save_light(i))?;
                         }
                     }
-                    Op::Reload { h } => {
+                    Op::Reload { h, lazy } => {
                         let bytes = dump::save_bytes(&r.hs[h as usize], true)?;
-                        r.hs[h as usize] = dump::load_bytes(&bytes, true)?;
+                        r.hs[h as usize] = dump::load_bytes(&bytes, !lazy)?;
                     }
                     _ => apply_plain(&mut r.hs, op),
                 }
@@ -659,7 +678,12 @@ impl C12Machine {
                 }
                 Ok(got) => {
                     let mut f = vec![];
-                    compare_cells(&want, &got, "in-memory", &mut f);
+                    // cells of a sheet that is still raw are not visible in memory: compare the loaded ones
+                    let raw = s2.hs[i].raw;
+                    let is_raw = |name: &str| (name == SHEET1 && raw[0]) || (name == SHEET2 && raw[1]);
+                    let want_l: Vec<_> = want.iter().map(|(n, m)| if is_raw(n) { (n.clone(), BTreeMap::new()) } else { (n.clone(), m.clone()) }).collect();
+                    let got_l: Vec<_> = got.iter().map(|(n, m)| if is_raw(n) { (n.clone(), BTreeMap::new()) } else { (n.clone(), m.clone()) }).collect();
+                    compare_cells(&want_l, &got_l, "in-memory", &mut f);
                     let names_w: Vec<&String> = want.iter().map(|x| &x.0).collect();
                     let names_g: Vec<&String> = got.iter().map(|x| &x.0).collect();
                     if !f.is_empty() || names_w != names_g {
@@ -704,9 +728,9 @@ impl C12Machine {
                 return false;
             }
         };
-        let (h, twice, reload) = match *op {
-            Op::Save { h, twice } => (h as usize, twice, false),
-            Op::Reload { h } => (h as usize, false, true),
+        let (h, twice, reload, lazy) = match *op {
+            Op::Save { h, twice } => (h as usize, twice, false, false),
+            Op::Reload { h, lazy } => (h as usize, false, true, lazy),
             _ => unreachable!(),
         };
         self.count(if reload { "reloads" } else { "saves" }, 1);
@@ -762,7 +786,7 @@ impl C12Machine {
             }
         }
         if reload {
-            match dump::load_bytes(&bytes, true) {
+            match dump::load_bytes(&bytes, !lazy) {
                 Ok(b) => real.hs[h] = b,
                 Err(e) => {
                     f.push(Finding { clause: "readable", symptom: format!("reload-failed:{}", panic_class(&e)), detail: e });
@@ -945,9 +969,9 @@ fn run(ctx: &Ctx) -> i32 {
                 "markers": a.markers.iter().map(|m| MARKERS[*m as usize]).collect::<Vec<_>>(),
                 "markers_rich_space": ar.markers.iter().map(|m| MARKERS[*m as usize]).collect::<Vec<_>>(),
                 "cells": ["Sheet1!A1", "Sheet1!A2", "S2!A1"],
-                "operations": ["set_text(h, A1|A2, marker)", "remove_cell(h, A1|A2)", "remove_row(h, 1|2)", "add_sheet_with_text(h, S2, marker in sheet_markers)", "remove_sheet(h, S2)", "clone(h)", "save(h)", "reload(h)"],
+                "operations": ["set_text(h, A1|A2, marker)", "remove_cell(h, A1|A2)", "remove_row(h, 1|2)", "add_sheet_with_text(h, S2, marker in sheet_markers)", "remove_sheet(h, S2)", "clone(h)", "save(h)", "reload(h) = read_reader(save(h), eager)", "reload_lazy(h) = read_reader(save(h), lazy: sheets stay raw until touched and are written back verbatim)"],
                 "sheet_markers": a.sheet_markers.iter().map(|m| MARKERS[*m as usize]).collect::<Vec<_>>(),
-                "max_enabled_operations_per_state": 3*8 + 3*2 + 3*2 + 3*2 + 3 + 3,
+                "max_enabled_operations_per_state": 3*8 + 3*2 + 3*2 + 3*2 + 3 + 3 + 3,
             }),
             bounds: json!({"history_length": a.d, "max_handles": MAX_HANDLES, "rows": 2, "sheets": 2}),
             exhaustive: true,
